@@ -152,10 +152,10 @@ func (c *Check) Violation(cas any, why string) {
 	bs, _ := json.MarshalIndent(payload, "", " ")
 	h := sha256.Sum256(bs)
 	dir := filepath.Join(Root(), "replays")
-	os.MkdirAll(dir, 0o755)
 	p := filepath.Join(dir, c.ID+"-"+hex.EncodeToString(h[:6])+".json")
-	os.WriteFile(p, bs, 0o644)
 	if c.violations <= 40 {
+		os.MkdirAll(dir, 0o755)
+		os.WriteFile(p, bs, 0o644)
 		fmt.Printf("VIOLATION property=%s replay=%s :: %s\n", c.ID, p, trunc(why, 400))
 	}
 	if len(c.samples) < 12 {
